@@ -534,7 +534,9 @@ func (mkline *MkLine) ValueFields(value string) []string {
 					break
 				} else if lexer.SkipByte('\\') {
 					field.WriteByte('\\')
-					plain()
+					if !lexer.EOF() {
+						plain()
+					}
 				} else {
 					plain()
 				}
